@@ -1,9 +1,14 @@
 package sim
 
 import (
+	"bytes"
 	"context"
+	"encoding/hex"
 	"encoding/json"
 	"fmt"
+	"os"
+	"os/exec"
+	"path/filepath"
 	"regexp"
 	"strconv"
 	"strings"
@@ -12,8 +17,11 @@ import (
 	"time"
 
 	pb "github.com/wealdtech/eth2-signer-api/pb/v1"
+	"google.golang.org/grpc"
 	"google.golang.org/grpc/codes"
 	"google.golang.org/grpc/status"
+	"google.golang.org/protobuf/proto"
+	"google.golang.org/protobuf/types/known/emptypb"
 )
 
 // Runners of W7 (daemon.go): the dirk binary as a daemon process.
@@ -310,7 +318,7 @@ func runDaemonEdge(t *testing.T, rc *RunCtx, prop string) {
 }
 
 func init() {
-	for _, k := range []string{"C01:daemon", "C02:daemon", "C03:daemon", "C05:daemon", "C19:daemon", "C07:daemon", "C18:daemon"} {
+	for _, k := range []string{"C01:daemon", "C02:daemon", "C03:daemon", "C05:daemon", "C19:daemon", "C07:daemon", "C18:daemon", "C20:daemon", "C10:daemon", "C11:daemon", "C17:daemon"} {
 		noBubble[k] = true
 	}
 }
@@ -519,4 +527,356 @@ type grpcConn struct {
 	signer signerAPI
 	lister pb.ListerClient
 	acct   pb.AccountManagerClient
+}
+
+func wireFSPopulation(t *testing.T) *fsPopulation {
+	w1 := WalletSpec{Name: "Wallet 1", Kind: "nd", Accounts: []string{"Account 0", "Account 1", "Account 2"}}
+	w2 := WalletSpec{Name: "Wallet 2", Kind: "nd", Accounts: []string{"Account 0", "Canary"}}
+	return newFSPopulation(t, "fswire", []WalletSpec{w1, w2, {Name: "Wallet 3", Kind: "distributed"}})
+}
+
+var wireReplies = map[string]func() proto.Message{
+	"Lister.ListAccounts":           func() proto.Message { return &pb.ListAccountsResponse{} },
+	"Signer.Sign":                   func() proto.Message { return &pb.SignResponse{} },
+	"Signer.Multisign":              func() proto.Message { return &pb.MultisignResponse{} },
+	"Signer.SignBeaconAttestation":  func() proto.Message { return &pb.SignResponse{} },
+	"Signer.SignBeaconAttestations": func() proto.Message { return &pb.MultisignResponse{} },
+	"Signer.SignBeaconProposal":     func() proto.Message { return &pb.SignResponse{} },
+	"AccountManager.Generate":       func() proto.Message { return &pb.GenerateResponse{} },
+	"AccountManager.Lock":           func() proto.Message { return &pb.LockAccountResponse{} },
+	"AccountManager.Unlock":         func() proto.Message { return &pb.UnlockAccountResponse{} },
+	"WalletManager.Lock":            func() proto.Message { return &pb.LockWalletResponse{} },
+	"WalletManager.Unlock":          func() proto.Message { return &pb.UnlockWalletResponse{} },
+	"DKG.Prepare":                   func() proto.Message { return &emptypb.Empty{} },
+	"DKG.Execute":                   func() proto.Message { return &emptypb.Empty{} },
+	"DKG.Commit":                    func() proto.Message { return &pb.CommitResponse{} },
+	"DKG.Abort":                     func() proto.Message { return &emptypb.Empty{} },
+	"DKG.Contribute":                func() proto.Message { return &pb.ContributeResponse{} },
+}
+
+// runDaemonWire is C20 against the daemon process: the generated requests of the wire world travel over real gRPC/TLS
+// (the server's own decoding, limits and interceptors) from the three genuine clients; after each one another
+// client's ordinary request must still be served.  A request that kills the daemon kills a real process here.
+func runDaemonWire(t *testing.T, rc *RunCtx) {
+	InitBLS()
+	ch := rc.Ch
+	pop := wireFSPopulation(t)
+	d := NewDaemon(t, rc, DaemonCfg{Pop: pop})
+	defer d.Close()
+	if err := d.Start(); err != nil {
+		rc.Violate("HARNESS", "daemon-did-not-start", err.Error(), 0)
+		return
+	}
+	conns := map[string]*grpc.ClientConn{}
+	for _, n := range []string{"client-test01", "client-test02", "client-test03"} {
+		cc, err := d.Dial(n, "")
+		if err != nil {
+			rc.Violate("HARNESS", "dial-failed", err.Error(), 0)
+			return
+		}
+		conns[n] = cc
+	}
+	g := &wireGen{rc: rc, pop: pop.Population, epoch: map[int]uint64{}}
+	wireMutator = g.mutateWire
+	defer func() { wireMutator = nil }()
+	canaryAcct := pop.ByPath("Wallet 2/Canary")
+	canary := remoteSigner{cl: pb.NewSignerClient(conns["client-test02"]), timeout: 30 * time.Second}
+	nReq := 8 + ch.Pick(24, 0)
+	var desc []string
+	for i := 0; i < nReq && len(rc.Viol) == 0; i++ {
+		wc := g.next()
+		mk, ok := wireReplies[wc.name]
+		if !ok {
+			continue
+		}
+		if m, ok := wc.req.(*pb.PrepareRequest); ok && m.GetThreshold() > 1<<16 {
+			continue // what a peer may ask for is outside this property (DESIGN.md section 16)
+		}
+		client := []string{"client-test01", "client-test01", "client-test02", "client-test03"}[ch.Pick(4, 0)]
+		svc, method, _ := strings.Cut(wc.name, ".")
+		line := fmt.Sprintf("%s as %s: %s", wc.name, client, truncate(fmt.Sprint(wc.req), 300))
+		rc.Logf("req %d %s", i, line)
+		desc = append(desc, wc.name)
+		rc.Stats.Seen("cases", "daemon-wire/"+wc.name+"/"+hexShort(h32(fmt.Sprint(wc.req))))
+		rc.Stats.Inc("daemon_wire_requests", 1)
+		ctx, cancel := context.WithTimeout(context.Background(), 30*time.Second)
+		err := conns[client].Invoke(ctx, "/v1."+svc+"/"+method, wc.req, mk())
+		cancel()
+		if status.Code(err) == codes.DeadlineExceeded && d.Alive() {
+			rc.Violate("C20", "request-never-answered", "daemon process: "+line, i)
+			return
+		}
+		// Canary (and liveness of the process).
+		e := AttEntry(canaryAcct.idx, uint64(i+1), uint64(i+2), uint64(1_000_000+i))
+		req := &pb.SignBeaconAttestationRequest{Id: &pb.SignBeaconAttestationRequest_Account{Account: canaryAcct.Path}, Domain: e.Domain, Data: e.attData()}
+		cres, cerr := canary.SignBeaconAttestation(context.Background(), req)
+		if !d.Alive() {
+			d.Reap()
+			rc.Violate("C20", "process-crash", fmt.Sprintf("the daemon process died after %s: %s", line, truncate(tailPanic(d.LogTail(6000)), 1500)), i)
+			return
+		}
+		if cerr != nil || cres.GetState() != pb.ResponseState_SUCCEEDED {
+			rc.Violate("C20", "instance-stopped-serving", fmt.Sprintf("after %s the canary request of another client was not served by the daemon process (err=%v res=%v)", line, cerr, cres), i)
+			return
+		}
+		rc.Stats.Inc("canaries_served", 1)
+	}
+	rc.Sample = map[string]any{"layer": "generated requests over gRPC/TLS against a daemon process", "requests": desc}
+}
+
+func tailPanic(log string) string {
+	if i := strings.Index(log, "panic:"); i >= 0 {
+		return log[i:]
+	}
+	if i := strings.Index(log, "fatal error:"); i >= 0 {
+		return log[i:]
+	}
+	return log
+}
+
+// daemonCLI runs a one-shot command of the binary (export / import) against a daemon's base directory, from a
+// working directory of its own.
+func daemonCLI(t *testing.T, d *Daemon, cwd string, args ...string) (int, string, string) {
+	if err := os.MkdirAll(cwd, 0o700); err != nil {
+		t.Fatalf("mkdir: %v", err)
+	}
+	var cmd *exec.Cmd
+	if d.cfg.HomeConfig {
+		cmd = exec.Command(dirkBinary(t), args...)
+	} else {
+		cmd = exec.Command(dirkBinary(t), append([]string{"--base-dir", d.Base}, args...)...)
+	}
+	cmd.Env = []string{"HOME=" + d.Base, "PATH=/usr/bin:/bin"}
+	cmd.Dir = cwd
+	var so, se bytes.Buffer
+	cmd.Stdout, cmd.Stderr = &so, &se
+	err := cmd.Run()
+	code := 0
+	if err != nil {
+		if ee, ok := err.(*exec.ExitError); ok {
+			code = ee.ExitCode()
+		} else {
+			t.Fatalf("dirk: %v", err)
+		}
+	}
+	return code, so.String(), se.String()
+}
+
+func parseExport(pop *Population, out string) (map[string]Watermark, error) {
+	var f icFile
+	if err := json.Unmarshal([]byte(out), &f); err != nil {
+		return nil, err
+	}
+	res := map[string]Watermark{}
+	for _, d := range f.Data {
+		kb, err := hex.DecodeString(strings.TrimPrefix(d.PubKey, "0x"))
+		if err != nil {
+			return nil, err
+		}
+		w := NoWatermark
+		for _, b := range d.Blocks {
+			v, _ := strconv.ParseInt(b.Slot, 10, 64)
+			w.Slot = v
+		}
+		for _, a := range d.Atts {
+			w.Src, _ = strconv.ParseInt(a.Source, 10, 64)
+			w.Tgt, _ = strconv.ParseInt(a.Target, 10, 64)
+		}
+		res[pop.KeyName(kb)] = w
+	}
+	return res, nil
+}
+
+// runDaemonInterchange: export and import as an operator runs them - one-shot commands of the same binary, on the
+// same base directory (or home directory) as the daemon, from whatever directory the shell happens to be in - around
+// a daemon process that signs in between.  C11: what the command exports is what the daemon released.  C10: what the
+// command imported binds the daemon started afterwards.  The storage path is the default or a relative one.
+func runDaemonInterchange(t *testing.T, rc *RunCtx, prop string) {
+	InitBLS()
+	ch := rc.Ch
+	pop := stdFSPopulation(t)
+	all := `{"client-test01": {"Wallet 1": ["All"], "Wallet 2": ["All"]}}`
+	d := NewDaemon(t, rc, DaemonCfg{Pop: pop, PermissionsJSON: all, HomeConfig: ch.Pick(3, 0) == 2, RelativeStorage: true})
+	defer d.Close()
+	if err := d.Start(); err != nil {
+		rc.Violate("HARNESS", "daemon-did-not-start", err.Error(), 0)
+		return
+	}
+	api, err := d.Signer("client-test01", "")
+	if err != nil {
+		rc.Violate("HARNESS", "dial-failed", err.Error(), 0)
+		return
+	}
+	nKeys := 1 + ch.Pick(3, 0)
+	released := map[string]Watermark{}
+	uniq := uint64(0)
+	for k := 0; k < nKeys; k++ {
+		w := NoWatermark
+		if ch.Pick(4, 0) > 0 {
+			src := uint64(ch.Pick(20, 0))
+			tgt := src + 1 + uint64(ch.Pick(20, 0))
+			uniq++
+			if (&Op{Kind: "att", Entries: []Entry{AttEntry(k, src, tgt, uniq)}}).ExecVia(context.Background(), pop.Population, api).OK(0) {
+				w.Src, w.Tgt = int64(src), int64(tgt)
+			}
+		}
+		if ch.Pick(4, 0) > 0 {
+			slot := uint64(1 + ch.Pick(40, 0))
+			uniq++
+			if (&Op{Kind: "prop", Entries: []Entry{PropEntry(k, slot, uniq)}}).ExecVia(context.Background(), pop.Population, api).OK(0) {
+				w.Slot = int64(slot)
+			}
+		}
+		released[pop.Accts[k].KName] = w
+	}
+	if ch.Pick(2, 0) == 1 {
+		d.Stop()
+	} else {
+		d.Kill()
+	}
+	cwd := func(tag string) string { return filepath.Join(d.Base, "shell-"+tag) }
+	code, out, se := daemonCLI(t, d, cwd("export"), "--export-slashing-protection", "--genesis-validators-root="+genesisRoot)
+	rc.Stats.Inc("daemon_cli_exports", 1)
+	if code != 0 {
+		rc.Violate(prop, "cli-export-failed", truncate(se, 400), 0)
+		return
+	}
+	exp, perr := parseExport(pop.Population, out)
+	if perr != nil {
+		rc.Violate(prop, "cli-export-failed", perr.Error(), 0)
+		return
+	}
+	rc.Stats.Seen("cases", fmt.Sprintf("daemon-interchange/%s/%v/%v", prop, d.cfg.HomeConfig, released))
+	for k, w := range released {
+		got, ok := exp[k]
+		if !ok {
+			got = NoWatermark
+		}
+		if got != w {
+			rc.Violate("C11", "export-not-faithful", fmt.Sprintf("the daemon process released for key %s up to %v, the export command run on its directory from another working directory says %v", k, w, got), 0)
+			return
+		}
+	}
+	if prop == "C11" {
+		rc.Sample = map[string]any{"layer": "export command around a daemon process", "released": fmt.Sprint(released)}
+		return
+	}
+	// C10: import higher values, start the daemon again, probe.
+	f := icFile{Meta: &icMeta{Version: "5", Root: genesisRoot}}
+	want := map[int]Watermark{}
+	for k := 0; k < nKeys; k++ {
+		w := released[pop.Accts[k].KName]
+		nw := Watermark{Slot: max(w.Slot, 0) + int64(1+ch.Pick(50, 0)), Src: max(w.Src, 0) + int64(1+ch.Pick(30, 0))}
+		nw.Tgt = max(w.Tgt, nw.Src) + int64(1+ch.Pick(30, 0))
+		want[k] = nw
+		f.Data = append(f.Data, icData{PubKey: "0x" + hex.EncodeToString(pop.Accts[k].PubKey),
+			Blocks: []icBlock{{Slot: strconv.FormatInt(nw.Slot, 10)}}, Atts: []icAtt{{Source: strconv.FormatInt(nw.Src, 10), Target: strconv.FormatInt(nw.Tgt, 10)}}})
+	}
+	body, _ := json.Marshal(f)
+	path := filepath.Join(d.Base, "interchange.json")
+	if err := os.WriteFile(path, body, 0o600); err != nil {
+		t.Fatalf("write: %v", err)
+	}
+	code, _, se = daemonCLI(t, d, cwd("import"), "--import-slashing-protection", "--genesis-validators-root="+genesisRoot, "--slashing-protection-file="+path)
+	rc.Stats.Inc("daemon_cli_imports", 1)
+	if code != 0 {
+		rc.Stats.Inc("imports_rejected", 1)
+		rc.Logf("import command failed: %s", truncate(se, 300))
+		return
+	}
+	if err := d.Start(); err != nil {
+		rc.Violate("HARNESS", "daemon-did-not-start", err.Error(), 1)
+		return
+	}
+	api, err = d.Signer("client-test01", "")
+	if err != nil {
+		rc.Violate("HARNESS", "dial-failed", err.Error(), 1)
+		return
+	}
+	for k := 0; k < nKeys; k++ {
+		nw := want[k]
+		uniq++
+		if (&Op{Kind: "prop", Entries: []Entry{PropEntry(k, uint64(nw.Slot), uniq)}}).ExecVia(context.Background(), pop.Population, api).OK(0) {
+			rc.Violate("C10", "conflicting-proposal-signed-after-import", fmt.Sprintf("key %s: the import command (run from another working directory) reported success for a file with slot %d, and the daemon started afterwards signed a proposal at that slot", pop.Accts[k].KName, nw.Slot), k)
+			return
+		}
+		uniq++
+		if (&Op{Kind: "att", Entries: []Entry{AttEntry(k, uint64(nw.Src), uint64(nw.Tgt), uniq)}}).ExecVia(context.Background(), pop.Population, api).OK(0) {
+			rc.Violate("C10", "conflicting-attestation-signed-after-import", fmt.Sprintf("key %s: the import command (run from another working directory) reported success for a file with attestation %d>%d, and the daemon started afterwards signed an attestation with that target", pop.Accts[k].KName, nw.Src, nw.Tgt), k)
+			return
+		}
+		rc.Stats.Inc("probes", 2)
+	}
+	rc.Sample = map[string]any{"layer": "import command around a daemon process", "released": fmt.Sprint(released), "imported": fmt.Sprint(want)}
+}
+
+// runDaemonLifecycle: the generation timeout is what the configuration file says ("process.generation-timeout", a
+// duration such as 250ms or 1s).  A genuine peer (the repository's signer-test02 certificate) opens a generation at
+// the daemon process over gRPC/TLS; while it is young a second Prepare is refused; once the configured time has passed
+// (real time here: the daemon is another process) Abort finds nothing and a new Prepare is accepted.
+func runDaemonLifecycle(t *testing.T, rc *RunCtx) {
+	InitBLS()
+	ch := rc.Ch
+	pop := stdFSPopulation(t)
+	timeouts := []string{"250ms", "400ms", "900ms", "1s", "1500ms"}
+	ts := timeouts[ch.Pick(len(timeouts), 0)]
+	timeout, _ := time.ParseDuration(ts)
+	d := NewDaemon(t, rc, DaemonCfg{Pop: pop, GenerationTimeout: ts, ExtraPeers: map[string]string{"2": "signer-test02:9"}})
+	defer d.Close()
+	if err := d.Start(); err != nil {
+		rc.Violate("HARNESS", "daemon-did-not-start", err.Error(), 0)
+		return
+	}
+	cc, err := d.Dial("signer-test02", "")
+	if err != nil {
+		rc.Violate("HARNESS", "dial-failed", err.Error(), 0)
+		return
+	}
+	dkg := pb.NewDKGClient(cc)
+	acct := fmt.Sprintf("Wallet 3/life %d", rc.Seed%1000)
+	parts := []*pb.Endpoint{{Id: 1, Name: "signer-test01", Port: uint32(d.port)}, {Id: 2, Name: "signer-test02", Port: 9}}
+	call := func(f func(ctx context.Context) error) error {
+		ctx, cancel := context.WithTimeout(context.Background(), 20*time.Second)
+		defer cancel()
+		return f(ctx)
+	}
+	prepare := func() error {
+		return call(func(ctx context.Context) error {
+			_, err := dkg.Prepare(ctx, &pb.PrepareRequest{Account: acct, Passphrase: []byte("pass"), Threshold: 2, Participants: parts})
+			return err
+		})
+	}
+	abort := func() error {
+		return call(func(ctx context.Context) error {
+			_, err := dkg.Abort(ctx, &pb.AbortRequest{Account: acct})
+			return err
+		})
+	}
+	t0 := time.Now()
+	if err := prepare(); err != nil {
+		rc.Violate("HARNESS", "daemon-call-failed", "first prepare by a genuine peer: "+err.Error(), 0)
+		return
+	}
+	rc.Stats.Inc("daemon_generations_opened", 1)
+	err2 := prepare()
+	if time.Since(t0) < timeout/2 && err2 == nil {
+		rc.Violate("C17", "prepare-accepted-while-active", fmt.Sprintf("daemon process with generation timeout %s: a second Prepare for %q %v after the first was accepted", ts, acct, time.Since(t0)), 1)
+		return
+	}
+	time.Sleep(timeout + timeout/2 + 100*time.Millisecond)
+	rc.Stats.Inc("sim_time_ms", int64((timeout+timeout/2)/time.Millisecond))
+	aged := time.Since(t0)
+	if ch.Pick(2, 0) == 1 {
+		if err := abort(); err == nil {
+			rc.Violate("C17", "abort-without-session", fmt.Sprintf("daemon process configured with generation timeout %s: Abort for %q was accepted %v after the generation was opened", ts, acct, aged), 2)
+			return
+		}
+	}
+	if err := prepare(); err != nil {
+		rc.Violate("C17", "prepare-refused-while-idle", fmt.Sprintf("daemon process configured with generation timeout %s: %v after the generation for %q was opened a new Prepare was refused: %v", ts, aged, acct, err), 3)
+		return
+	}
+	rc.Stats.Inc("daemon_generations_expired_as_configured", 1)
+	rc.Stats.Seen("cases", fmt.Sprintf("daemon-life/%s/%d", ts, rc.Seed%7))
+	rc.Sample = map[string]any{"layer": "generation timeout from the configuration file of a daemon process", "timeout": ts}
 }
